@@ -328,7 +328,7 @@ func verifC06(kind, k, L, V, warm int) {
 // is still split into one exact fragment per slot. Whatever the splitter keeps between requests (tables,
 // generation counters, pooled maps) has gone through n more rounds; n is chosen above 65536 so that 16-bit
 // counters have wrapped.
-func HarnessC06History(n int) {
+func HarnessC06History(n, fam int) {
 	w, h, c := verifDecodeWorld(0)
 	first := VerifEncode([]byte("mget"), []byte("{s}1"), []byte("{t}1"))
 	other := VerifEncode([]byte("mget"), []byte("{u}1"), []byte("{v}1"))
@@ -343,7 +343,10 @@ func HarnessC06History(n int) {
 	}
 	h.Msgs = nil
 	w.Sent(c)
-	kind := verifrt.Choice("family", 3)
+	kind := fam // -1: every family
+	if kind < 0 {
+		kind = verifrt.Choice("family", 3)
+	}
 	names := []string{"mget", "del", "mset"}
 	keys := [][]byte{[]byte("{t}2"), []byte("{u}2"), []byte("{s}2"), []byte("{v}2")}
 	args := [][]byte{[]byte(names[kind])}
@@ -368,7 +371,7 @@ var _ = hashkit.Hash
 
 func init() {
 	verifrt.Register("HarnessC06", func(p []int64) { HarnessC06(int(p[0]), int(p[1]), int(p[2]), int(p[3])) })
-	verifrt.Register("HarnessC06History", func(p []int64) { HarnessC06History(int(p[0])) })
+	verifrt.Register("HarnessC06History", func(p []int64) { HarnessC06History(int(p[0]), int(p[1])) })
 	verifrt.Register("HarnessC06Refused", func(p []int64) { HarnessC06Refused(int(p[0]), int(p[1]), int(p[2]), int(p[3])) })
 	verifrt.Register("HarnessC06Warm", func(p []int64) { HarnessC06Warm(int(p[0]), int(p[1]), int(p[2]), int(p[3])) })
 }
